@@ -15,6 +15,8 @@ Definition run_chk (kind : nat) (zs : list Z) (fs : list F) (zls : list (list Z)
   | 0%nat => gauss_seidel_chk o Ap Aj Ax x b (zn zs 0) (zn zs 1) (zn zs 2)
   | 1%nat => sor_gauss_seidel_chk o Ap Aj Ax x b (zn zs 0) (zn zs 1) (zn zs 2) (fnn o fs 0)
   | 3%nat => jacobi_chk o Ap Aj Ax x b (fln fls 3) (zn zs 0) (zn zs 1) (zn zs 2) (fnn o fs 0)
+  | 5%nat => jacobi_indexed_chk o Ap Aj Ax x b (zln zls 2) (fnn o fs 0)
+  | 7%nat => gauss_seidel_indexed_chk o Ap Aj Ax x b (zln zls 2) (zn zs 0) (zn zs 1) (zn zs 2)
   | _ => None
   end.
 End Run.
